@@ -16,13 +16,15 @@ Public:
 All enumerations here are deterministic (sorted, no sets iterated).
 """
 import contextlib
+import ctypes
 import functools
 import glob
 import itertools
 import json
 import os
 import re
-import signal
+import threading
+import time
 import traceback
 
 from mc import core
@@ -45,24 +47,61 @@ MEM_DIR = "/tmp"          # an existing directory: buildLoad chdir()s to the dir
 
 # ----------------------------------------------------------------------------- robust watchdog
 #
-# core.watchdog arms a one-shot timer.  ioflo's framer runners are generators; when the garbage collector
-# finalises the runners of an earlier build while a later build spins in an allocating loop, the one
-# Watchdog raised by the signal handler can land inside such a finaliser, where Python swallows it
-# ("Exception ignored in generator ...") - and the hung build is never interrupted.  Re-arm periodically.
+# core.watchdog arms a one-shot SIGALRM timer whose handler raises.  That is not enough for builds that
+# spin: ioflo's framer runners are generators, and when the garbage collector finalises the runners of an
+# earlier build the raised Watchdog can land inside such a finaliser, where Python swallows it ("Exception
+# ignored in generator ...") and the hung build is never interrupted; with a periodic timer the signal
+# machinery itself was observed (CPython 3.12, loaded machine) to stop delivering after a handler was
+# re-entered.  So: a monitor thread injects core.Watchdog into the main thread with
+# PyThreadState_SetAsyncExc and keeps re-injecting every 50 ms until the guarded block is left.
+
+class _Monitor(threading.Thread):
+    def __init__(self):
+        super().__init__(daemon=True, name="verif-watchdog")
+        self.cv = threading.Condition()
+        self.deadline = None
+        self.target = threading.main_thread().ident
+        self.pid = os.getpid()
+
+    def run(self):
+        while True:
+            with self.cv:
+                while self.deadline is None:
+                    self.cv.wait()
+                now = time.monotonic()
+                if now < self.deadline:
+                    self.cv.wait(self.deadline - now)
+                    continue
+                ctypes.pythonapi.PyThreadState_SetAsyncExc(ctypes.c_ulong(self.target),
+                                                           ctypes.py_object(core.Watchdog))
+                self.deadline = now + 0.05
+
+
+_MON = [None]
+
+
+def _monitor():
+    m = _MON[0]
+    if m is None or m.pid != os.getpid() or not m.is_alive():   # threads do not survive fork
+        m = _MON[0] = _Monitor()
+        m.start()
+    return m
+
 
 @contextlib.contextmanager
 def _watchdog(seconds):
-    def _h(signum, frame):
-        raise core.Watchdog("watchdog %.1fs" % seconds)
-    old = signal.signal(signal.SIGALRM, _h)
-    signal.setitimer(signal.ITIMER_REAL, seconds, 0.05)
+    m = _monitor()
+    with m.cv:
+        m.deadline = time.monotonic() + seconds
+        m.cv.notify()
     try:
         yield
     finally:
         while True:
             try:
-                signal.setitimer(signal.ITIMER_REAL, 0)
-                signal.signal(signal.SIGALRM, old)
+                with m.cv:
+                    m.deadline = None
+                ctypes.pythonapi.PyThreadState_SetAsyncExc(ctypes.c_ulong(m.target), None)   # drop a pending one
                 break
             except core.Watchdog:
                 continue
